@@ -431,7 +431,8 @@ static std::vector<Scenario> fixed_scenarios()
   mk("init-finalize", "rule a { condition: true }\n", "x")->init_cycle = true;
   mk("text-strings", "rule a { strings: $a = \"abc\" $b = \"hello\" wide ascii nocase $c = \"ab\" fullword xor(1-3) $d = \"canary\" base64 "
                      "condition: any of them and #a > 1 }\n", text);
-  mk("hex-and-regexp", "rule a { strings: $h = { 61 62 ?? 64 [1-4] ( 65 | 66 67 ) } $j = { 61 62 63 [300-400] 64 } $r = /ab+c{1,3}(d|e)?/ $q = /h.l+o/i wide "
+  mk("base64-wide", "rule a { strings: $d = \"canary\" wide base64 base64wide $e = \"hello\" ascii wide base64wide condition: any of them }\n", text);
+  mk("hex-and-regexp", "rule a { strings: $h = { 61 62 ?? 64 [1-4] ( 65 | 66 67 ) } $j = { 61 62 63 [300-400] 64 } $r = /ab+c{1,3}(d|e)?/ $q = /h.l+o/i wide $c = /a[a-c]+c|[^x]lo\\b/ "
                        "condition: $h or $j or $r or #q == 1 }\n", text + bytes(350, 'z') + "d");
   mk("conditions", "rule a { strings: $a = \"abc\" $b = \"hello\" condition: for any of them : ($ at 3 or # > 1) and for all i in (1..#a) : "
                    "(@a[i] >= 0) and 2 of them in (0..100) and \"abc\" matches /a.c/ and xs contains \"b\" and xi == 7 and uint16(0) > 0 }\n"
@@ -460,6 +461,10 @@ static std::vector<Scenario> fixed_scenarios()
     s->add_how = YS_ADD_FD;
     s->scan_entry = YS_SCAN_FD;
   }
+  mk("modules-tests", "import \"tests\"\nrule a { condition: tests.constants.one == 1 and tests.string_dict[\"foo\"] == \"foo\" and "
+                      "tests.struct_array[1].i == 1 and tests.integer_array[256] == 256 and tests.string_array[3] contains \"bar\" and "
+                      "tests.struct_dict[\"foo\"].i == 1 and tests.isum(1, 2) == 3 and tests.length(\"ab\") == 2 and tests.empty() == \"\" and "
+                      "tests.match(/fo+/, \"xfoo\") == 3 and for any k, v in tests.string_dict : (k == v) }\n", text);
   {
     Scenario* s = mk("save-load-stream", "rule a { strings: $a = \"abc\" $r = /ab+c/ condition: $a and $r and xs == \"abc\" }\n", text);
     s->save_load = true;
